@@ -1,6 +1,6 @@
 \* C15 MC + GEN: today's design, sequential view; fixed prefix + every single message of the grammar
 CONSTANTS
- Docs = {"d1", "d2", "d3", "e", "n", "q", "o", "h", "u", "g"}
+ Docs = {"d1", "d2", "d3", "e", "n", "p", "q", "o", "h", "u", "g"}
  Mode = "seq"
  MaxEdits = 0
  MaxReqs = 2
